@@ -47,10 +47,12 @@ PROPS["C03"] = dict(
     kani=[dict(filter_q="c03_q_", filter_t=["c03_q_", "c03_t_"], jobs=14, timeout_q=240, timeout_t=900)],
     engines=[dict(module="asmsym", func="run_div"), dict(module="mirsmt", func="run_div_guard")],
     functions=["BigInt::{div_rem,/,%,div_floor,mod_floor,div_mod_floor,div_ceil,div_euclid,rem_euclid,div_rem_euclid,checked_*}",
-               "biguint::division::{div_rem, div_rem_ref} (pre-checks, normalisation shift, de-normalisation)", "div_rem_digit, rem_digit", "div_wide (asm binding + fault condition)"],
-    bounds_quick="sign conventions: 10 APIs x 4 sign pairs x shapes (|a|,|b|,|q|,|r|) in {(1,1,1,1),(1,1,1,0),(1,1,0,1),(2,1,2,1)} digits + zero dividend; zero-divisor set on 0..2-digit dividends",
+               "biguint::division::{div_rem, div_rem_ref} (pre-checks, normalisation shift, de-normalisation)", "div_rem_core + sub_mul_digit_same_len + __add2 (real code, pinned divisors; div_wide under its exact product contract)", "div_rem_digit, rem_digit", "div_wide (asm binding + fault condition)"],
+    bounds_quick="sign conventions: 10 APIs x 4 sign pairs x shapes (|a|,|b|,|q|,|r|) in {(1,1,1,1),(1,1,1,0),(1,1,0,1),(2,1,2,1)} digits + zero dividend, and ALL 18 API forms at (1,1,1,1) x 4 sign pairs; zero-divisor set on 0..2-digit dividends; "
+                 "the REAL Knuth-D core on 3-digit dividends by four pinned 2-digit normalised divisors (all dividends for the sparsest one; dividends whose top digit equals b0 - the class that reaches the saturated-estimate branch - for the others): r < b and q*b + r = a",
     bounds_thorough="18 API forms x 4 sign pairs x 12 shapes up to 2x2 digits",
-    outside="value correctness of the Knuth-D core (div_rem_core) - replaced by its contract; operands > 2 digits",
+    outside="value correctness of the Knuth-D core (div_rem_core) for SYMBOLIC divisors and beyond 3x2 digits - replaced by its contract in the wrapper queries (with a symbolic divisor every product is symbolic x symbolic; with arbitrary 3-digit dividends even a pinned divisor is a "
+            "divider-verification problem that did not finish in 240 s: thorough-tier attempts); operands > 2 digits at the BigInt layer",
     trusted=STUBS_ADDSUB + ["contract stub: biguint::division::div_rem_ref -> arbitrary canonical (q,r), r<d, |a| = P + r with abstract product P (P=0 iff q=0)",
                             "contract stub: div_rem_core -> arbitrary canonical (q,r), r<b, a = P + r, P multiple of 2^shift; its preconditions asserted at the call",
                             "contract stub: div_wide -> arbitrary (q,r), r<d, q=0 iff numerator<d; precondition hi<d asserted (the #DE condition); asm operand binding decided by the asm engine",
@@ -92,19 +94,21 @@ PROPS["C07"] = dict(
                "bit/set_bit/bits/trailing_zeros/trailing_ones/count_ones", "BigInt::bit/set_bit (set_negative_bit)"],
     bounds_quick="& | ^: nine sign pairs x shapes {1,2}x{1,2} digits (3x3 thorough) x {ref-ref, assign} forms; ! on 0..2 digits; shifts: values 0..3 digits, "
                  "word shift concrete 0..3, bit shift symbolic 0..63; amount decomposition for all 12 shift types over the whole type; bit queries 0..2 digits "
-                 "with a symbolic index; set_bit at concrete indices {0,1,63,64,65,127,128,...} on symbolic values; every digit symbolic",
-    outside="operands longer than 3 digits",
-    trusted=STUBS_ADDSUB + ["stub: Vec::shrink_to_fit -> no-op (capacity is unobservable)"],
+                 "with a symbolic index; set_bit at concrete indices {0,1,63,64,65,127,128,...} on symbolic values; every digit symbolic; "
+                 "the three FORMS of a BigInt right shift (x >> k, &x >> k, x >>= k) with the unsigned shift under a contract (arbitrary canonical result of 0..2 digits): rounding adjustment, sign of a zero result, their order",
+    outside="operands longer than 3 digits; the by-value / assign forms of BigInt << (one-line wrappers over the unsigned shift, only &x << k is queried)",
+    trusted=STUBS_ADDSUB + ["stub: Vec::shrink_to_fit -> no-op (capacity is unobservable)", "contract stub (shift-forms harnesses): Shr<u32>/ShrAssign<u32> for BigUint -> one arbitrary canonical value"],
 )
 
 PROPS["C08"] = dict(
     inject=[("src/bigint/convert.rs", "c08/convert.rs"), ("src/biguint/convert.rs", "c08/floats.rs"),
-            ("src/biguint/shift.rs", "c07/biguint_shift.rs")],
-    kani=[dict(filter_q="c08_q_", filter_t=["c08_q_", "c08_t_"], jobs=14, timeout_q=200, timeout_t=900)],
-    functions=["ToPrimitive for BigInt/BigUint (to_i8..to_u128,to_isize,to_usize)", "TryFrom<&BigInt>/<BigInt>/<&BigUint>/<BigUint> for 12 primitive types",
+            ("src/biguint/shift.rs", "c07/biguint_shift.rs"), ("src/bigint.rs", "c19/bigint.rs")],
+    kani=[dict(filter_q=["c08_q_", "c19_q_unary"], filter_t=["c08_q_", "c08_t_", "c19_q_unary", "c19_t_unary"], jobs=14, timeout_q=200, timeout_t=900)],
+    functions=["BigInt <-> BigUint: From<BigUint> for BigInt, TryFrom<&BigInt>/<BigInt> for BigUint (Err carries the original back), to_biguint/to_bigint (C19's unary harnesses re-run here)",
+               "ToPrimitive for BigInt/BigUint (to_i8..to_u128,to_isize,to_usize)", "TryFrom<&BigInt>/<BigInt>/<&BigUint>/<BigUint> for 12 primitive types",
                "From<prim> for BigInt/BigUint", "FromPrimitive", "ToBigInt/ToBigUint for primitives", "TryFrom<signed> for BigUint",
                "high_bits_to_u64", "ToPrimitive::to_f64/to_f32 for BigUint"],
-    bounds_quick="big -> primitive: values of 0..3 digits, both signs, every digit symbolic (covers every MIN/MAX+-k edge of all 12 types); primitive -> big: every value of each type",
+    bounds_quick="BigInt <-> BigUint on 0..2-digit values of every sign; big -> primitive: values of 0..3 digits, both signs, every digit symbolic (covers every MIN/MAX+-k edge of all 12 types); primitive -> big: every value of each type",
     bounds_thorough="as quick plus all 12 types at all lengths 0..3; to_f64 explicit-IEEE oracle at 2,3,5,16,17 digits; from_f64/from_f32 harnesses are ATTEMPTED (reported undecided when the cap is hit)",
     outside="from_f64/from_f32 (float trunc + integer_decode + by-value shift does not finish under CBMC within the cap: measured 140 s then solver resource error) - only attempted in the thorough tier; to_f32 beyond 2 digits; to_f64 at lengths other than those listed",
     trusted=["stub: f64::powi/f32::powi(2.0, e) -> exact power of two by bit pattern (CBMC's __builtin_powi model is inexact); asserted to be used only on base 2.0, 0 <= e <= MAX_EXP",
@@ -116,7 +120,7 @@ PROPS["C09"] = dict(
     inject=[("src/bigint/convert.rs", "c09/bytes.rs"), ("src/biguint/iter.rs", "c09/iter.rs")],
     kani=[dict(filter_q="c09_q_", filter_t=["c09_q_", "c09_t_"], jobs=14, timeout_q=240, timeout_t=900)],
     functions=["to_bytes_le/be", "from_bytes_le/be", "to_signed_bytes_le/be", "from_signed_bytes_le/be", "twos_complement", "BigUint::new/from_slice/assign_from_slice",
-               "BigInt::new/from_slice/assign_from_slice", "to_u32_digits/to_u64_digits", "U32Digits/U64Digits: next,next_back,len,size_hint,count,last,nth"],
+               "BigInt::new/from_slice/assign_from_slice x {Plus, Minus, NoSign}", "BigInt::from_bytes_le/be x {Plus, Minus, NoSign}", "to_u32_digits/to_u64_digits", "U32Digits/U64Digits: next,next_back,len,size_hint,count,last,nth"],
     bounds_quick="to_bytes: values of 0..2 digits; from_bytes/from_signed_bytes: every byte string of length {0,1,7,8,9,16,17} (0..17 thorough); to_signed_bytes: "
                  "magnitudes of byte length {1,2,8,9} (+3,16 thorough), both signs, both byte orders, shortest-encoding assertion; u32 import: 0..5 words (0..7 thorough); "
                  "iterators: any interleaving of up to 7 front/back pulls on values of 0..3 digits followed by one of count/last/nth; all contents symbolic",
@@ -172,7 +176,7 @@ PROPS["C18"] = dict(
 PROPS["C06"] = dict(
     inject=[("src/bigint/convert.rs", "c06/parse.rs"), ("src/biguint/convert.rs", "c06/radix.rs"), ("src/bigint.rs", "c06/fmt.rs"), ("src/biguint/convert.rs", "c15/utf8.rs")],
     kani=[dict(filter_q=["c06_q_", "c15_q_ascii_mapping"], filter_t=["c06_q_", "c06_t_", "c15_q_ascii_mapping", "c15_t_ascii"], jobs=14, timeout_q=240, timeout_t=1800)],
-    functions=["BigUint::from_str_radix TEXT LAYER (sign stripping, underscore rules, digit mapping, error kind, choice of back end; back ends under recorders)", "Display/Binary/Octal/LowerHex/UpperHex for BigInt (arguments handed to Formatter::pad_integral)", "from_radix_be/from_radix_le (validation, empty input, value)", "from_radix_digits_be (single chunk)", "from_bitwise_digits_le / from_inexact_bitwise_digits_le",
+    functions=["BigInt::from_str_radix SIGN LAYER (text handed to the unsigned parser, sign of the result)", "BigUint::from_str_radix TEXT LAYER (sign stripping, underscore rules, digit mapping, error kind, choice of back end; back ends under recorders)", "Display/Binary/Octal/LowerHex/UpperHex for BigInt (arguments handed to Formatter::pad_integral)", "from_radix_be/from_radix_le (validation, empty input, value)", "from_radix_digits_be (single chunk)", "from_bitwise_digits_le / from_inexact_bitwise_digits_le",
                "to_radix_le -> to_bitwise_digits_le / to_inexact_bitwise_digits_le", "get_radix_base / get_half_radix_base tables (all 247 radices)", "radix range assertions of from_str_radix, from_radix_*, to_str_radix",
                "to_str_radix (BigUint/BigInt wrappers: reversal, '-' sign) and to_str_radix_reversed (digit -> ASCII mapping for all radices) with the digit production under a recorder/contract"],
     bounds_quick="digit-vector input: every digit string of length 0..3 for radices {10,16,256,3,255,8} incl. digits >= radix (None) and both byte orders; single-chunk Horner for 3/5/2 digits of radix 10/36/255; "
@@ -180,7 +184,7 @@ PROPS["C06"] = dict(
                  "the compiled radix tables for ALL radices 3..255; out-of-range radices panic; "
                  "text layer of BigUint::from_str_radix: EVERY ASCII string of length 0..3 for radices 10 (lengths 0..3), 16, 8, 36, 2 (length 3): accepted iff [+]? D (D|_)*, Empty vs InvalidDigit, and the digit vector / back end / argument handed on",
     outside="END-TO-END text parsing (text layer AND value in one query) is not decided: with the real back ends even one symbolic byte exceeds 240 s (thorough-tier attempts are kept and reported undecided); the value comes from the digit-vector queries, "
-            "the composition is by the recorded interface; BigInt::from_str_radix's '-' handling and FromStr / parse_bytes wrappers only in those thorough-tier attempts; strings longer than 3 (4: thorough); non-ASCII input; "
+            "the composition is by the recorded interface (BigInt::from_str_radix's '-' handling likewise: c06_q_int_sign_* with the unsigned parser under a recorder, all ASCII strings of length 0..3); FromStr / parse_bytes wrappers only in those thorough-tier attempts; strings longer than 3 (4: thorough); non-ASCII input; "
             "multi-chunk Horner input (>= 2 chunk-base multiplications): thorough-tier only, with the head digit and first chunk pinned (1447 s); to_str_radix / Display text for non-power-of-two radices (64-bit divisions by the radix: thorough-tier attempts on <= 16-bit values under C15); the chunked Horner path with more than one chunk and the "
             ">= 64-digit big-base output path; the formatter flag handling (core's pad_integral, trusted)",
     trusted=["stub: Vec::with_capacity -> empty growing vector; Vec::shrink_to_fit -> no-op"],
